@@ -2,6 +2,7 @@ import SaramaVerif.Model.BalanceRange
 import SaramaVerif.Model.BalanceRoundRobin
 import SaramaVerif.Lemmas.C13Range
 import SaramaVerif.Lemmas.C13RR
+import SaramaVerif.Lemmas.C13Sticky
 /-
   C13 — assignments are balanced, and the sticky strategy is sticky.
   Property theorems only; helper developments are in Lemmas/C13*.lean (and Lemmas/C08*.lean).
@@ -137,5 +138,146 @@ example : rrPlan [(1, [0, 1]), (2, [1, 0]), (3, [0, 1])] false
 example : rrPlan [(1, [1, 3, 5, 7]), (2, [2, 4, 6]), (3, [1, 3, 5, 7])] false
       [(1, 0), (2, 0), (3, 0), (4, 0), (5, 0), (6, 0), (7, 0)] =
     .plan [(1, [(1, 0)]), (2, [(2, 0), (4, 0), (6, 0)]), (3, [(3, 0), (5, 0), (7, 0)])] := by decide
+
+/-! ## Sticky -/
+
+/-- SOUNDNESS of `isBalanced` (the test that stops `performReassignments`): on a working assignment with pairwise
+    disjoint duplicate-free lists in which everybody holds only what it may hold (the invariant `sticky_invariant`
+    of C08 provides exactly that), a `true` answer implies Kafka's balance criterion: a member holding a partition
+    another member could take has at most one partition more than that member. -/
+theorem sticky_isBalanced_sound (cur pot : Asg) (hone : ∀ p, AL.countAll cur p ≤ 1)
+    (hholds : PlanAll (fun m tp => tp ∈ AL.get pot m) cur) (hb : isBalanced cur pot = true) :
+    ∀ a b, a ∈ AL.keys cur → b ∈ AL.keys cur → a ≠ b →
+      ∀ p, p ∈ AL.get cur a → p ∈ AL.get pot b → sizeIn cur a ≤ sizeIn cur b + 1 :=
+  isBalanced_sound cur pot hone hholds hb
+
+/-- non-vacuity: sizes 3/1 with the big member holding a partition the small one could take: the test says no;
+    sizes 2/2: yes -/
+example : isBalanced [(1, [(0, 0), (0, 1), (0, 2)]), (2, [(0, 3)])]
+    [(1, [(0, 0), (0, 1), (0, 2), (0, 3)]), (2, [(0, 0), (0, 1), (0, 2), (0, 3)])] = false := by decide
+example : isBalanced [(1, [(0, 0), (0, 1)]), (2, [(0, 3), (0, 2)])]
+    [(1, [(0, 0), (0, 1), (0, 2), (0, 3)]), (2, [(0, 0), (0, 1), (0, 2), (0, 3)])] = true := by decide
+
+private theorem match_some_ne_nil {L l : List TP} (h : (match L with | [] => none | l => some l) = some l) :
+    l ≠ [] := by
+  cases L with
+  | nil => cases h
+  | cons a r => injection h with h; subst h; simp
+
+private theorem exists_actual (mv : Movements) (p : TP) (c new : Member) : ∃ q, actualOK mv p q c new = true := by
+  unfold actualOK
+  cases h : actualCandidates mv p c new with
+  | none => exact ⟨p, by simp⟩
+  | some l =>
+    cases l with
+    | nil =>
+      exfalso
+      unfold actualCandidates at h
+      by_cases h1 : (!(mv.any (fun e => e.1.1 == p.1))) = true
+      · rw [if_pos h1] at h; cases h
+      · rw [if_neg h1] at h
+        exact match_some_ne_nil h rfl
+    | cons a r => exact ⟨a, by simp⟩
+
+private theorem runOps_cons_some {v : Variant} {env : SEnv} {st st' : SState} {op : SOp} {r : List SOp}
+    (h : runOps v env st (op :: r) = some st') :
+    Model.Balance.guard v env st op = true ∧ runOps v env (Model.Balance.apply v env st op) r = some st' := by
+  rw [runOps] at h
+  by_cases hg : Model.Balance.guard v env st op = true
+  · rw [if_pos hg] at h; exact ⟨hg, h⟩
+  · rw [if_neg hg] at h; cases h
+
+/-- FIXPOINT: when the "better suited consumer" branch is not enabled for a reassignable partition `p` (for no
+    choice of the partition actually moved), then either the balance test passes or the holder of `p` has at most one
+    partition more than every member that could take `p` — i.e. a state in which `performReassignments` makes a full
+    pass without a move is locally balanced in Kafka's sense. -/
+theorem sticky_fixpoint_balanced (v : Variant) (env : SEnv) (st : SState) (hs : st.snap.isSome = true)
+    (hr : st.reverted = false) (p : TP) (hp : env.reassignable.contains p = true) (c new : Member)
+    (hc : ownerGet st.owner p = some c) (hnew : newConsumerFor st.cur env.pot p = some new)
+    (hno : ∀ q, Model.Balance.guard v env st (.moveOther p q) = false) :
+    isBalanced st.cur env.pot = true ∨
+      ∀ o, o ∈ consumersOf env.pot p → sizeIn st.cur c ≤ sizeIn st.cur o + 1 := by
+  cases hb : isBalanced st.cur env.pot with
+  | true => exact Or.inl rfl
+  | false =>
+    right
+    intro o ho
+    apply Nat.le_of_not_lt
+    intro hlt
+    obtain ⟨q, hq⟩ := exists_actual st.moves p c new
+    have := hno q
+    simp only [Model.Balance.guard, hs, hr, hp, hb, hc, hnew, hq, Bool.not_false, Bool.true_and, Bool.and_true,
+      List.any_eq_false, decide_eq_false_iff_not, Bool.not_eq_true] at this
+    have h2 := this o ho
+    simp only [gt_iff_lt] at h2
+    omega
+
+/-- while the balance test passes nothing moves, and without a move nothing is reverted (both variants) -/
+theorem sticky_balanced_blocks_moves (v : Variant) (env : SEnv) (st : SState)
+    (hb : isBalanced st.cur env.pot = true) (p q : TP) :
+    Model.Balance.guard v env st (.movePrev p q) = false ∧ Model.Balance.guard v env st (.moveOther p q) = false :=
+  balanced_blocks_moves v env st hb p q
+
+/-- RE-PLANNING IS THE IDENTITY, under explicit hypotheses: the working assignment `st0.cur` (= what the members
+    report, after the filter loop of `Plan`) leaves nothing unassigned that somebody could take (`hcomplete`: the
+    unassigned loop finds no takers), and once the members that cannot take part are parked (any set `ps` the guards
+    allow) the balance test passes.  Then the run cannot contain any further operation — no move, no revert — and
+    the plan assembled at the end gives every member exactly the list it had.  Both variants. -/
+theorem replan_is_identity (v : Variant) (env : SEnv) (st0 : SState)
+    (h0 : st0.fixed = []) (h0r : st0.reverted = false) (hnd : (AL.keys st0.cur).Nodup)
+    (us : List TP) (hcomplete : ∀ u, u ∈ us → consumersOf env.pot u = [])
+    (ps : List Member) (rest : List SOp) (st : SState)
+    (hrun : runOps v env st0 (.assignAll us :: (ps.map .park ++ .snapshot :: rest)) = some st)
+    (hbal : isBalanced (ps.foldl AL.erase st0.cur) env.pot = true) :
+    rest = [] ∧ ∀ m, AL.get (finish v st) m = AL.get st0.cur m := by
+  obtain ⟨_, hrun⟩ := runOps_cons_some hrun
+  -- the unassigned loop changes nothing
+  have hnoop := assignFold_noop env us (st0.cur, st0.owner) hcomplete
+  have hst1 : Model.Balance.apply v env st0 (.assignAll us) = { st0 with assigned := true } := by
+    simp only [Model.Balance.apply, hnoop]
+  rw [hst1] at hrun
+  have hnd1 : (AL.keys ({ st0 with assigned := true } : SState).cur ++
+      AL.keys ({ st0 with assigned := true } : SState).fixed).Nodup := by
+    simp only [h0, AL.keys, List.map_nil, List.append_nil]; exact hnd
+  obtain ⟨stp, hrun2, hcur, hsnap, hperf, hrev, hass, _, hmap⟩ :=
+    run_parks v env (.snapshot :: rest) ps _ st hnd1 hrun
+  simp only at hcur hsnap hperf hrev hass hmap
+  obtain ⟨_, hrun2⟩ := runOps_cons_some hrun2
+  -- after the snapshot every guard is closed
+  have hrest : rest = [] := by
+    cases rest with
+    | nil => rfl
+    | cons op r =>
+      exfalso
+      obtain ⟨hg, _⟩ := runOps_cons_some hrun2
+      have hb' : isBalanced (Model.Balance.apply v env stp .snapshot).cur env.pot = true := by
+        simp only [Model.Balance.apply, hcur]; exact hbal
+      cases op with
+      | assignAll us' => simp [Model.Balance.guard, Model.Balance.apply, hass] at hg
+      | park m => simp [Model.Balance.guard, Model.Balance.apply] at hg
+      | snapshot => simp [Model.Balance.guard, Model.Balance.apply] at hg
+      | movePrev p q => rw [(balanced_blocks_moves v env _ hb' p q).1] at hg; cases hg
+      | moveOther p q => rw [(balanced_blocks_moves v env _ hb' p q).2] at hg; cases hg
+      | revert => simp [Model.Balance.guard, Model.Balance.apply] at hg
+  subst hrest
+  simp only [runOps, Option.some.injEq] at hrun2
+  subst hrun2
+  refine ⟨rfl, ?_⟩
+  intro m
+  have hfin : finish v (Model.Balance.apply v env stp .snapshot) = addFixed stp.cur stp.fixed := by
+    unfold finish
+    simp only [Model.Balance.apply, hrev, h0r]
+  rw [hfin, hmap m, h0]
+  rfl
+
+/-- non-vacuity of `replan_is_identity`: two members with the same topic, plan 2/2 reported back: the run
+    [assignAll [], snapshot] is accepted, the balance test passes, the plan is returned as it was -/
+example : (runOps .pinned
+      { pot := potOf [(1, [0]), (2, [0])] [(0, [0, 1, 2, 3])], prev := [], reassignable := [(0, 0), (0, 1), (0, 2), (0, 3)],
+        initializing := false, parts := allParts [(0, [0, 1, 2, 3])] }
+      (initState [(1, [0]), (2, [0])] [(0, [0, 1, 2, 3])]
+        [((0, 0), 1, none), ((0, 1), 1, none), ((0, 2), 2, none), ((0, 3), 2, none)])
+      [.assignAll [], .snapshot]).map (fun st => finish .pinned st) =
+    some [(1, [(0, 0), (0, 1)]), (2, [(0, 2), (0, 3)])] := by decide
 
 end Props.C13
